@@ -105,7 +105,7 @@ structure State where
   /-- registered in-flight loads: key ↦ call id -/
   inflight : List (Nat × Nat) := []
   stats : Stats := {}
-  deriving Repr, Inhabited
+  deriving DecidableEq, Repr, Inhabited
 
 /-! ### Map helpers -/
 
@@ -229,12 +229,11 @@ def evict (cfg : Cfg) (s : State) (ev : Event) : Option State :=
     match ev.cause with
     | .expiration => if e.liveAt s.now then none else some s'
     | .overflow =>
-        -- (an expired-but-unswept entry evicted under size pressure may be reported as Overflow:
-        --  the policy does not look at the clock; the removal is still justified by the size bound)
         match s.maximum with
         | none => none
         | some mx =>
           if !cfg.bounded then none
+          else if !e.liveAt s.now then none      -- an already expired entry must be reported as Expiration (C06)
           else if e.weight == 0 then none        -- zero-weight entries are pinned
           else if s.totalWeight > mx || e.weight > mx then some s' else none
     | _ => none
